@@ -167,7 +167,8 @@ def enc_descr(d, rng=None):
         return '"' + d.replace('\\', '\\\\').replace('"', '\\"') + '"'
     out = ['"']
     for i, c in enumerate(d):
-        if not c.isspace() and rng.random() < 0.06:
+        # (in front of a `#` more often: a comment must not start inside a description)
+        if not c.isspace() and rng.random() < (0.5 if c == '#' else 0.06):
             out.append('\\' + rng.choice([' ', '\n', '\t', ' \n   ', '\n\n']))
         out.append({'\\': '\\\\', '"': '\\"'}.get(c, c))
     if rng.random() < 0.05:
